@@ -17,6 +17,7 @@ func (e *Engine) registerIntrinsics() {
 	e.intrinsics["(*bytes.Buffer).Bytes"] = intrBufferBytes
 	e.intrinsics["(*bytes.Buffer).Len"] = intrBufferLen
 	e.intrinsics["(*bytes.Buffer).WriteByte"] = intrBufferWriteByte
+	e.intrinsics["(*bytes.Buffer).Cap"] = intrBufferCap
 }
 
 func identOf(v Val) *Term {
@@ -75,6 +76,10 @@ func intrBufferWrite(fr *frame, st *State, fn *ssa.Function, args []Val, pos tok
 	fr.nilCheck(st, id, pos)
 	p := args[1].(*SliceV)
 	fr.ghostAppend(st, id, p, p.Len, pos)
+	ncap := c.Fresh("bufcap", BV(64))
+	_, lenCell := u.ghostOutBase(id)
+	u.assumeGlobal(c.And(c.ULe(u.readCell(st, "bv64", lenCell), ncap), c.ULe(ncap, c.BVu(1<<56, 64)), c.Implies(c.Ne(p.Len, c.BVu(0, 64)), c.Ne(ncap, c.BVu(0, 64)))))
+	u.writeCell(st, "bv64", c.Fld(id, fGhostCap), ncap)
 	return TupleV{p.Len, &IfaceV{Tag: c.BVu(0, 32), Ptr: c.NilA}}
 }
 
@@ -118,4 +123,17 @@ func intrBufferLen(fr *frame, st *State, fn *ssa.Function, args []Val, pos token
 	fr.nilCheck(st, id, pos)
 	_, lenCell := u.ghostOutBase(id)
 	return u.readCell(st, "bv64", lenCell)
+}
+
+// Cap: a ghost capacity, 0 for the zero Buffer, at least the length, positive once something was written.
+func intrBufferCap(fr *frame, st *State, fn *ssa.Function, args []Val, pos token.Pos) Val {
+	u := fr.u
+	c := u.C
+	id := identOf(args[0])
+	fr.nilCheck(st, id, pos)
+	_, lenCell := u.ghostOutBase(id)
+	n := u.readCell(st, "bv64", lenCell)
+	cp := u.readCell(st, "bv64", c.Fld(id, fGhostCap))
+	u.assume(st, c.And(c.ULe(n, cp), c.ULe(cp, c.BVu(1<<56, 64))))
+	return cp
 }
